@@ -171,6 +171,8 @@ def run(case):
     why, trace = [], []
     for op in case["ops"]:
         before = _state(coll)
+        if not before["members"]:
+            break           # an empty collection (its last member was popped) is outside the quantifier: nothing further is judged
         res, exc = None, None
         try:
             if op[0] == "slice":
@@ -231,10 +233,8 @@ def run(case):
                 why.append(f"{op[0]} accepted an edit that must be refused: {op}")
         if why:
             break
-    # pad the trace so that the model comparison has one observation per op
-    while len(trace) < len(case["ops"]):
-        trace.append({"raised": True, "state": _state(coll)})
-    return {"out": {"trace": trace}, "oracle": {"ok": not why, "why": "; ".join(why), "finding": None}}
+    # the model is compared on the operations that were actually carried out
+    return {"out": {"trace": trace, "n": len(trace)}, "oracle": {"ok": not why, "why": "; ".join(why), "finding": None}}
 
 
 def _valid(op, st):
@@ -331,5 +331,6 @@ def _coq_op(op):
 
 def coq_case(case, res):
     st0 = {"members": [[m["key"], m["shape"], m["al"]] for m in case["members"]], "aligned": case["n_al"] > 0}
-    tr = Q.lst([f"(mkObs {Q.b(o['raised'])} {_coq_coll(o['state'])})" for o in res["out"]["trace"]])
-    return f"mk {_coq_coll(st0)} {Q.lst([_coq_op(o) for o in case['ops']])} {tr}"
+    n = res["out"].get("n", len(res["out"]["trace"]))
+    tr = Q.lst([f"(mkObs {Q.b(o['raised'])} {_coq_coll(o['state'])})" for o in res["out"]["trace"][:n]])
+    return f"mk {_coq_coll(st0)} {Q.lst([_coq_op(o) for o in case['ops'][:n]])} {tr}"
